@@ -8,6 +8,7 @@ The wrappers snapshot the public pre-state, call the real method, and compare
 result and post-state with the model; they record and return, they never
 raise inside the library.
 """
+import collections
 import contextlib
 import io
 import itertools
@@ -527,6 +528,26 @@ def c16_tree(prop, key, index, tier):
                 kinds.add('across schedulers')
     for k in kinds:
         out.count('trees with edges %s' % k)
+    if rng.random() < 0.2 and len(scheds) >= 2 and atoms:
+        # "same requirements as that one": new jobs built with required=<the
+        # requirement set of an existing job> (a copy, per the constructor's
+        # contract) and placed in another scheduler of the tree
+        for k in range(rng.randint(1, 2)):
+            model = rng.choice(jobs)
+            arg = model.required if rng.random() < 0.7 else list(model.required)
+            clone = N("c%d" % k, rng.randrange(64), required=arg)
+            home = rng.choice([s_ for s_ in scheds if s_ is not member_of[model]])
+            home.add(clone)
+            member_of[clone] = home
+            atoms.append(clone)
+            jobs.append(clone)
+        out.count('trees with jobs built from the requirement set of another job')
+    verbose_call = rng.random() < 0.2
+    if verbose_call:
+        out.count('trees sanitized in verbose mode')
+        for s_ in scheds:
+            if rng.random() < 0.5:
+                s_.verbose = True
     ran = False
     if rng.random() < 0.3:
         # history: a *closed* version of the tree is run first (the dangling
@@ -584,7 +605,7 @@ def c16_tree(prop, key, index, tier):
         buf = io.StringIO()
         try:
             with contextlib.redirect_stdout(buf):
-                r1 = top.sanitize()
+                r1 = top.sanitize(verbose=True) if verbose_call and rnd == 0 else top.sanitize()
                 r2 = top.sanitize()
         except BaseException as exc:                    # noqa
             out.violation('sanitize-raised', "sanitize() raised %r" % (exc,))
@@ -671,6 +692,13 @@ def _check_queries(out, sched, req, members, forever, starts_list, where, exits_
 
 
 def _check_entry_exit(out, sched, req, members, forever, succ, where):
+    try:
+        _check_entry_exit_(out, sched, req, members, forever, succ, where)
+    except BaseException as exc:                        # noqa
+        out.violation('query-raised', "%s: entry_jobs() / exit_jobs() raised %r" % (where, exc))
+
+
+def _check_entry_exit_(out, sched, req, members, forever, succ, where):
     out.count('entry/exit queries compared')
     ent = sorted(j.name for j in sched.entry_jobs())
     # "the members that require nothing": literally nothing, so a member left
@@ -692,6 +720,17 @@ def _check_entry_exit(out, sched, req, members, forever, succ, where):
 
 def _apply_edit(rng, sched, jobs, req, members, spare, out):
     """one random edit applied to the live scheduler and to the name-level truth"""
+    if rng.random() < 0.25:
+        # before the edit the scheduler is shown to somebody: listings and
+        # exports number the jobs and compute reverse links as a side effect
+        acyclic = R.is_acyclic({a: {b for b in req[a] if b in members} for a in members}, members)
+        shows = ['list_safe'] + (['list', 'debrief', 'dot_format'] if acyclic else [])
+        try:
+            with contextlib.redirect_stdout(io.StringIO()):
+                getattr(sched, rng.choice(shows))()
+            out.count('listings / exports made before an edit')
+        except BaseException as exc:                    # noqa  judged by C15 / C20, not here
+            out.count('harness: listing failed before an edit: %s' % type(exc).__name__)
     op = rng.choice(['add_edge', 'add_edge', 'remove_edge', 'swap_edge', 'swap_edge', 'add_job', 'remove_job',
                      'bypass', 'keep_only'])
     mem = sorted(members)
@@ -1355,7 +1394,7 @@ def m_requires(job, arg, remove=False):
     elif isinstance(arg, MSeq):
         if arg.jobs:
             m_requires(job, arg.jobs[-1], remove)
-    elif isinstance(arg, (list, tuple, set, frozenset)):
+    elif isinstance(arg, (list, tuple, set, frozenset, collections.deque)):
         for a in arg:
             m_requires(job, a, remove)
 
@@ -1379,7 +1418,7 @@ def c19_program(prop, key, index, tier):
 
     def nest(depth=0):
         if depth < 3 and rng.random() < 0.3:
-            t = rng.choice(['list', 'tuple', 'set'])
+            t = rng.choice(['list', 'tuple', 'set', 'list', 'tuple', 'set', 'fset', 'deque'])
             return (t, [nest(depth + 1) for _ in range(rng.randint(0, 3))])
         return ('name', pick('jsn'))
 
@@ -1391,20 +1430,26 @@ def c19_program(prop, key, index, tier):
             return list(items)
         if a[0] == 'tuple':
             return tuple(items)
+        if a[0] == 'deque':
+            return collections.deque(items)             # "some other sort of iterable"
         try:
-            return set(items)
+            return frozenset(items) if a[0] == 'fset' else set(items)
         except TypeError:
             return list(items)
 
     def show(a):
         if a[0] == 'name':
             return str(a[1])
-        o, c = {'list': '[]', 'tuple': '()', 'set': '{}'}[a[0]]
+        o, c = {'list': '[]', 'tuple': '()', 'set': '{}', 'fset': ('frozenset({', '})'),
+                'deque': ('deque([', '])')}[a[0]]
         return o + ", ".join(show(x) for x in a[1]) + c
 
     def compare(where):
         for n in names_:
             if n[0] in 'jn':
+                strangers = [x for x in real[n].required if not hasattr(x, 'name')]
+                if strangers:
+                    return 'requirements', "%s: %s.required holds %r, which is no job" % (where, n, strangers[:3])
                 a = {x.name for x in real[n].required}
                 b = {x.name for x in model[n].req}
                 if a != b:
@@ -1438,8 +1483,9 @@ def c19_program(prop, key, index, tier):
         try:
             if op == 'sched':
                 n = new_name('S')
-                real[n], model[n] = PureScheduler(), MSched()
-                desc = "%s = PureScheduler()" % n
+                vb = rng.random() < 0.25
+                real[n], model[n] = PureScheduler(verbose=vb), MSched()
+                desc = "%s = PureScheduler(verbose=%s)" % (n, vb)
             elif op == 'nest':
                 # a nestable Scheduler, created empty (an empty scheduler is falsy: len() == 0)
                 n = new_name('n')
@@ -1448,7 +1494,8 @@ def c19_program(prop, key, index, tier):
                 reqarg = nest() if r < 0.3 else ('name', pick('jsn')) if r < 0.7 else ('name', None)
                 sc = pick('Sn') if rng.random() < 0.5 else None
                 desc = "%s = Scheduler(required=%s, scheduler=%s)" % (n, show(reqarg), sc)
-                rn = S(n, rng.randrange(16), required=realize(reqarg, real), scheduler=real.get(sc))
+                rn = S(n, rng.randrange(16), required=realize(reqarg, real), scheduler=real.get(sc),
+                       verbose=rng.random() < 0.2)
                 mn = MNest(n)
                 m_requires(mn, realize(reqarg, model))
                 names_.append(n)
@@ -1592,8 +1639,17 @@ def c19_program(prop, key, index, tier):
                 if not sc:
                     continue
                 items = [pick('jsn') for _ in range(rng.randint(0, 3))]
-                desc = "%s.update(%s)" % (sc, items)
-                real[sc].update([real.get(i) if i else None for i in items])
+                how = rng.choice(['list', 'list', 'tuple', 'set', 'generator'])
+                desc = "%s.update(<%s> %s)" % (sc, how, items)
+                objs = [real.get(i) if i else None for i in items]
+                if how == 'tuple':
+                    objs = tuple(objs)
+                elif how == 'set':
+                    objs = set(objs)
+                elif how == 'generator':
+                    objs = (x for x in list(objs))
+                    out.count('update() given a generator')
+                real[sc].update(objs)
                 model[sc].jobs.update(m_flat([model.get(i) if i else None for i in items]))
         except BaseException as exc:                    # noqa
             out.violation('statement-raised', "statement %d `%s` after %s raised %r" % (step, desc, log, exc))
